@@ -529,7 +529,7 @@ proofs! { c09_ops_u64_l3 => 8, 15, [h_new::<u64, 3>(), h_push::<u64, 3, 4>(), h_
 
 //@ id: c09_ops_i64_l4
 //@ prop: C09
-//@ tier: quick
+//@ tier: thorough
 //@ cap: 900
 //@ funcs: WeightedTreeIndex::<i64>::new; push; update
 //@ bounds: every i64 weight list of length 4 (new), arbitrary valid pre-state of length 4 (push, update); negative weights rejected
@@ -538,9 +538,18 @@ proofs! { c09_ops_i64_l4 => 8, 15, [h_new::<i64, 4>(), h_push::<i64, 4, 5>(), h_
 
 //@ id: c09_ops_u32_l5
 //@ prop: C09
-//@ tier: quick
+//@ tier: thorough
 //@ cap: 900
 //@ funcs: WeightedTreeIndex::<u32>::new; push; pop; update
 //@ bounds: length 5, u32 weights
 //@ assumes: pre-state invariant; spare capacity
 proofs! { c09_ops_u32_l5 => 9, 15, [h_new::<u32, 5>(), h_push::<u32, 5, 6>(), h_pop::<u32, 5, 4>(), h_update::<u32, 5>()]; }
+
+//@ id: c09_ops_i64_l3
+//@ prop: C09
+//@ tier: thorough
+//@ cap: 900
+//@ funcs: WeightedTreeIndex::<i64>::new; push; update
+//@ bounds: every i64 weight list of length 3 (new), arbitrary valid pre-state of length 3 (push, update); negative weights rejected
+//@ assumes: pre-state invariant; spare capacity
+proofs! { c09_ops_i64_l3 => 8, 15, [h_new::<i64, 3>(), h_push::<i64, 3, 4>(), h_update::<i64, 3>()]; }
